@@ -380,7 +380,7 @@ def v6_text(rng):
     return enc, t.encode("latin1")
 
 
-TOKENS = [b"1", b"0", b"25", b"2345", b":", b".", b"1.", b"a:B:c:", b"%", b"g", b"F"]
+TOKENS = [b"1", b"0", b"6", b"25", b"2345", b":", b".", b"1.", b"a:B:c:", b"d:E", b"%", b"g"]
 
 
 def token_texts(maxtok):
@@ -411,27 +411,30 @@ REGRESS = ["ipv4_scanf_leniency", "ipv6_eight_groups_and_double_colon", "ipv6_se
 
 def regress_status(ctx, exe):
     """the scripts kept for the open findings: does the specification still refuse what the library does? (information only)"""
-    out = {}
+    import concurrent.futures as cf
     wd = os.path.join(ctx.outdir, "regress")
-    for name in REGRESS:
+
+    def one(name):
         p = os.path.join(SPEC, SPEC_DIR, "regress", name + ".script")
         if not os.path.exists(p):
-            continue
+            return name, "script missing"
         lines = [ln for ln in open(p).read().splitlines() if ln.strip() and not ln.startswith("#")]
         sp, tp, evs, died, err = pipeline.run_harness(exe, lines, wd, name)
         if died:
-            out[name] = "died: " + died
-            continue
+            return name, "died: " + died
         clean = os.path.join(wd, name + ".clean.ndjson")
         pipeline.write_clean_trace(evs, clean)
         v = tlc.validate(SPEC_DIR, "ValueCodecsTrace", "Trace.cfg", clean, wd, tag=name)
         if v.error:
-            out[name] = "error: " + v.error[:200]
-        elif v.accepted:
-            out[name] = "accepted (the library no longer deviates: lift the driver filter)"
-        else:
-            out[name] = "still rejected at event %d of %d: %s" % (v.matched + 1, v.total, str(evs[v.matched])[:160] if v.matched < len(evs) else "?")
-    return out
+            return name, "error: " + v.error[:200]
+        if v.accepted:
+            return name, "accepted (the library no longer deviates: lift the driver filter)"
+        ev = dict(evs[v.matched]) if v.matched < len(evs) else {}
+        ev.pop("s", None)
+        return name, "still rejected at event %d of %d: %s" % (v.matched + 1, v.total, ev)
+
+    with cf.ThreadPoolExecutor(max_workers=len(REGRESS)) as pool:
+        return dict(pool.map(one, REGRESS))
 
 
 def run(ctx):
@@ -460,7 +463,7 @@ def run(ctx):
            required_actions=["ValueCodecsMC!" + a for a in MC_ACTIONS])
     if thorough:
         ctx.mc(SPEC_DIR, "ValueCodecsMC", "MC_thorough.cfg", timeout=3000, xmx="10g", coverage=False)
-    want = 200 if not thorough else 2500
+    want = 160 if not thorough else 2500
     scripts, _ = tlc.gen_scripts(SPEC_DIR, "ValueCodecsMC", "Gen.cfg", ctx.outdir, num=want, depth=45, seed=ctx.seed, workers=4)
     fam = {}
     for s in scripts:        # simulation prints every candidate last step: keep one script per prefix
@@ -469,7 +472,7 @@ def run(ctx):
     execs = [from_tlc(s, rng) for s in list(fam.values())[:want * 2]]
     ctx.extra["tlc_generated_scripts"] = len(execs)
     exe = prepare(ctx)       # (the shared build directory may have been pruned while TLC ran)
-    nuuid, nmem, nv4, nv6, maxtok = (450, 350, 9000, 16000, 4) if not thorough else (9000, 7000, 150000, 250000, 5)
+    nuuid, nmem, nv4, nv6, maxtok = (320, 260, 6000, 10000, 3) if not thorough else (9000, 7000, 80000, 140000, 4)
     for _ in range(nuuid):
         execs.append(uuid_exec(rng, rng.randint(12, 70)))
     for _ in range(nmem):
